@@ -12,6 +12,8 @@ import Model.Util
   `Policy` holds the two places where the repaired tree differs from the tree of the design round:
   `forwardHead`  — `EvolvableWrapper` really forwards the wrapped head's mutations (D20);
   `clampKernel`  — `change_kernel` clamps explicit arguments to the range of its own random draw.
+  `fitLater`     — `change_kernel_size` steps an enlarged kernel down until every later layer still fits
+                   (`MutableKernelSizes._later_layers_fit`; the tree before that repair: `fitLater = false`).
 -/
 namespace Arch
 open Util
@@ -43,6 +45,7 @@ deriving DecidableEq, Repr
 structure Policy where
   forwardHead : Bool := true
   clampKernel : Bool := true
+  fitLater : Bool := true
 deriving DecidableEq, Repr
 
 /-! ## EvolvableMLP (also the network heads; `advOut > 0` = DuelingDistributionalMLP) -/
@@ -164,11 +167,28 @@ def CNN.addLayer (c : CNN) (a : Args) : CNN × Applied :=
               kernels := c.kernels ++ [a.k], strides := c.strides ++ [a.stride] }, .addLayer)
   else (c.addChannel a, .addChannel)
 
+/-- the walk of `MutableKernelSizes._later_layers_fit`: no kernel is larger than the feature map it is
+    applied to (`if k > h or k > w: return False`; `h = (h - k) // stride + 1`) -/
+def fitsAux : Int → Int → List Nat → List Nat → Bool
+  | h, w, k :: ks, s :: ss =>
+    if (k : Int) > h ∨ (k : Int) > w then false else fitsAux (convOut h k s) (convOut w k s) ks ss
+  | _, _, _, _ => true
+
+/-- `_later_layers_fit(hidden_layer = j, new_kernel_size = knew, …)`: the walk with the kernel of layer `j`
+    replaced by `knew` -/
+def CNN.laterFit (c : CNN) (j knew : Nat) : Bool := fitsAux c.inH c.inW (c.kernels.set j knew) c.strides
+
+/-- `while new > current and not self._later_layers_fit(…): new -= 1`  (`n` = fuel, `new − current` suffices) -/
+def CNN.stepDown (c : CNN) (j cur : Nat) : Nat → Nat → Nat
+  | 0, knew => knew
+  | n + 1, knew => if knew > cur ∧ ¬ (c.laterFit j knew = true) then c.stepDown j cur n (knew - 1) else knew
+
 /-- the layer index and kernel `change_kernel` really writes -/
 def CNN.kernelTarget (p : Policy) (c : CNN) (a : Args) : Nat × Nat :=
   if p.clampKernel then
     let i := min a.klayer (c.kernels.length - 1)
-    (i, max 1 (min a.k (c.maxKernels.getD i 1)))
+    let k0 := max 1 (min a.k (c.maxKernels.getD i 1))
+    (i, if p.fitLater then c.stepDown i (c.kernels.getD i 1) (k0 - c.kernels.getD i 1) k0 else k0)
   else (a.klayer, a.k)
 
 /-- `layerOK` = the layer mutations of this block are enabled (they are disabled for the encoder of
@@ -995,6 +1015,10 @@ def step (s : IOState) : List String → IOState × String
     match parseBool? f, parseBool? c with
     | some f, some c => ({ s with policy := { forwardHead := f, clampKernel := c } }, "ok")
     | _, _ => (s, "bad-op")
+  | ["policy", f, c, l] =>
+    match parseBool? f, parseBool? c, parseBool? l with
+    | some f, some c, some l => ({ s with policy := { forwardHead := f, clampKernel := c, fitLater := l } }, "ok")
+    | _, _, _ => (s, "bad-op")
   | "def" :: reg :: rest =>
     match parseBasic rest with
     | some b => ({ s with regs := (reg, .basic b) :: s.regs.filter (fun e => e.1 != reg) }, "ok")
@@ -1057,6 +1081,10 @@ def step (s : IOState) : List String → IOState × String
       (s, " ".intercalate (c.maps.map (fun p => toString p.1 ++ "x" ++ toString p.2)) ++ " | " ++
           showNats c.maxKernels ++ " | " ++ showBool01 c.spatialOK)
     | _ => (s, "bad-op")
+  | ["fit", j, k] =>
+    match s.cur, parseNat? j, parseNat? k with
+    | some (.enc (.basic (.cnn c))), some j, some k => (s, showBool01 (c.laterFit j k))
+    | _, _, _ => (s, "bad-op")
   | _ => (s, "bad-op")
 
 end Arch
